@@ -22,6 +22,11 @@ from vf.symf import P
 ENGINE = "S"
 
 
+def _wr(run, ob, payload):
+    """replay file of this part (the aggregator dispatches on engine_part)"""
+    return run.write_replay(ob, dict(payload, engine_part="S"))
+
+
 def H(x):
     return int(x, 16)
 
@@ -65,7 +70,7 @@ def settle(run, ob, pairs, payload, detail=""):
         payload = dict(payload, differing=len(bad))
         if replay(payload):
             ob.set(VIOLATION, f"{len(bad)} of {len(pairs)} coefficients differ from the definition. {detail}",
-                   solver=r.solver, solver_s=r.time_s, replay=run.write_replay(ob, payload))
+                   solver=r.solver, solver_s=r.time_s, replay=_wr(run, ob, payload))
         else:
             ob.set(INCONCLUSIVE, "mismatch did not reproduce")
     else:
@@ -357,6 +362,8 @@ def check(run):
 def replay(payload):
     """Re-run the real routine and compare again with the definition (the run is deterministic; the
     disagreement is a property of the code for all inputs: any unit vector with a differing coefficient is a witness)."""
+    if payload.get("engine_part") not in (None, "S") or payload.get("kind") not in ['fft', 'domain', 'lrange', 'kate', 'interp']:
+        return None
     symf.build()
     k = payload["kind"]
     if k == "fft":
